@@ -13,7 +13,10 @@ var errWatchdog = errors.New("watchdog: process did not finish")
 var CLIWatchdog = 120 * time.Second
 
 // runWithWatchdog runs cmd to completion; kills it after CLIWatchdog.
-func runWithWatchdog(cmd *exec.Cmd) error {
+func runWithWatchdog(cmd *exec.Cmd) error { return runWithLimit(cmd, CLIWatchdog) }
+
+// runWithLimit runs cmd to completion; kills it after limit.
+func runWithLimit(cmd *exec.Cmd, limit time.Duration) error {
 	if err := cmd.Start(); err != nil {
 		return err
 	}
@@ -22,7 +25,7 @@ func runWithWatchdog(cmd *exec.Cmd) error {
 	select {
 	case err := <-done:
 		return err
-	case <-time.After(CLIWatchdog):
+	case <-time.After(limit):
 		cmd.Process.Kill()
 		<-done
 		return errWatchdog
